@@ -5,6 +5,8 @@ slot=$1; shift
 W=/tmp/wt/v$slot
 [ -d $W ] || git -C /repo worktree add -q --detach $W HEAD
 cd $W
+# always verify against the current HEAD of /repo
+git checkout -q -- . ; rm -f tests/seeded_demo.rs; git checkout -q --detach "$(git -C /repo rev-parse HEAD)"
 for n in "$@"; do
   d=/verif/seeded/$n
   git checkout -q -- . ; rm -f tests/seeded_demo.rs
